@@ -578,3 +578,46 @@ func (p Poly) Range(env map[string]Interval) (Interval, bool) {
 	}
 	return Interval{lo, hi}, true
 }
+
+// CmpPoly is the atom "want > 0" for a polynomial in the algebra's atoms, in
+// any spelling: a comparison X op Y matches when Norm(X) − Norm(Y) is want or
+// −want (so `len(files) > mb`, `mb < len(files)`, `len(files)-mb > 0` and
+// `excess > 0` with excess := len(files)-mb are the same atom). With nonStrict
+// the weaker `want ≥ 0` is accepted as establishing it too.
+func CmpPoly(a *Alg, want Poly, nonStrict bool) Atom {
+	return func(v ssa.Value) (bool, bool) {
+		b, ok := v.(*ssa.BinOp)
+		if !ok {
+			return false, false
+		}
+		switch b.Op {
+		case token.GTR, token.GEQ, token.LSS, token.LEQ:
+		default:
+			return false, false
+		}
+		if !isNumeric(b.X.Type()) {
+			return false, false
+		}
+		d := a.Norm(b.X).Sub(a.Norm(b.Y))
+		op := b.Op
+		switch {
+		case d.Equal(want):
+		case d.Equal(want.Neg()):
+			op = flipOp(op)
+		default:
+			return false, false
+		}
+		// now: want op 0
+		switch op {
+		case token.GTR:
+			return true, true
+		case token.LEQ:
+			return true, false
+		case token.GEQ:
+			return nonStrict, true
+		case token.LSS:
+			return nonStrict, false
+		}
+		return false, false
+	}
+}
